@@ -21,6 +21,7 @@ func (e *Engine) VerifyFunc(fn *ssa.Function, con *Contract) (g *Gen, err error)
 		ghostSorts: map[string]string{"$brk": "Int"}, callSelCount: map[string]int{},
 		safety:    map[string]bool{"bounds": true, "div": true, "assert": true, "panic": true, "mapwrite": true, "makeslice": true, "nilcall": true},
 		selectors: map[string]bool{},
+		localRefs: map[string]string{},
 	}
 	g.fnName = e.funcDisplayName(fn, con)
 	defer func() {
@@ -470,6 +471,11 @@ func (g *Gen) execInstr(in ssa.Instruction) error {
 		elem := x.Type().(*types.Pointer).Elem()
 		ref := g.alloc(s)
 		v := &Val{T: ref, Ty: x.Type()}
+		if pfx := localPrefix(x); pfx != "" {
+			// a local whose address never leaves the function: no callee can write
+			// it, so it lives in components of its own
+			g.localRefs[ref] = pfx
+		}
 		if at, ok := elem.Underlying().(*types.Array); ok && isStruct(at.Elem()) {
 			g.zeroElems(s, ref, at.Elem())
 		} else if isStruct(elem) {
@@ -625,7 +631,7 @@ func (g *Gen) execIndexAddr(x *ssa.IndexAddr) {
 			return
 		}
 		g.vals[x] = &Val{T: sx("elemaddr", base.T, idx), Ty: x.Type(),
-			LV: &Loc{Comp: elemComp(at.Elem()), Ref: base.T, Idx: idx, Ty: at.Elem()}}
+			LV: &Loc{Comp: g.localRefs[base.T] + elemComp(at.Elem()), Ref: base.T, Idx: idx, Ty: at.Elem()}}
 	default:
 		g.fail("IndexAddr on %s", x.X.Type())
 	}
@@ -829,6 +835,9 @@ func (g *Gen) execSlice(x *ssa.Slice) {
 		g.define(x, sx("mk-slice", sx("sl-base", base.T), sx("+", sx("sl-off", base.T), lo), sx("-", hi, lo), sx("-", mx, lo)))
 	case *types.Pointer:
 		at := t.Elem().Underlying().(*types.Array)
+		if g.localRefs[base.T] != "" {
+			g.fail("slice of a non-escaping local array is outside the supported subset")
+		}
 		n := intLit(at.Len())
 		lo := get(x.Low, "0")
 		hi := get(x.High, n)
